@@ -1011,3 +1011,13 @@ func init() {
 		return Eq(a, b)
 	}
 }
+
+func init() {
+	theory["AccountKeeper.NewAccountWithAddress"] = func(x *Exec, f *Frame, st *State, c *CallInfo) Val {
+		return &AccountVal{Addr: c.T(2), Exists: True}
+	}
+	theory["AccountKeeper.SetAccount"] = func(x *Exec, f *Frame, st *State, c *CallInfo) Val { return nil }
+	theory["AccountKeeper.HasAccount"] = func(x *Exec, f *Frame, st *State, c *CallInfo) Val {
+		return UF("account_exists", SBool, c.T(2))
+	}
+}
